@@ -66,6 +66,8 @@ def score_col(case) -> str:
 def file_columns(case):
     """column order of every input: the score column first or last"""
     sc = score_col(case)
+    if case.get("nopay"):      # all-numeric table: no string column
+        return [sc, "id"] if case.get("spos", "first") == "first" else ["id", sc]
     return [sc, "id", "p"] if case.get("spos", "first") == "first" else ["id", "p", sc]
 
 
@@ -107,7 +109,7 @@ def write_input(i: int, rows, case):
             "id": pa.array(ids, type=pa.int64()),
             "p": pa.array(pay, type=pa.string()),
         }
-        pq.write_table(pa.table({c: arrs[c] for c in order}), p)
+        pq.write_table(pa.table({c: arrs[c] for c in order}), p)   # (`order` has no "p" for all-numeric tables)
         return p, ParquetFileReader
     ser = {
         sc: pd.Series(scores, dtype="float64" if floaty else "int64"),
@@ -356,7 +358,8 @@ def gen_case(rng, nmax=20, force_cols=False):
     cols = None
     if kind == "merger" and entry != "merge_readers" and (force_cols or rng.random() < 0.1):
         cols = list(rng.choice(COLS_WITHOUT_SCORE if rng.random() < 0.12 else COLS_WITH_SCORE))
-    return dict(kind=kind, inputs=inputs, desc=desc, chunk=chunk, fmt=fmt, entry=entry, outer=outer,
+    nopay = cols is None and rng.random() < 0.15
+    return dict(kind=kind, inputs=inputs, desc=desc, chunk=chunk, fmt=fmt, entry=entry, outer=outer, nopay=nopay,
                 floaty=floaty, shape=shape, sclass=sclass, scol=scol, spos=spos, negzero=negzero,
                 defaults=defaults, cols=cols, dups=dups, wholetext=wholetext)
 
@@ -655,6 +658,7 @@ def classify(chk, c, r, resp, ix, tally=True):
         chk.count("scores", "dyadic" if c["floaty"] else "int")
         chk.count("score_class", c.get("sclass", "plain"))
         chk.count("text_whole_numbers_without_point", bool(c.get("wholetext")))
+        chk.count("all_numeric_table", bool(c.get("nopay")))
         chk.count("score_column", f"{score_col(c)}/{c.get('spos', 'first')}")
         chk.count("neg_zero", bool(c.get("negzero")) and any(s == 0 for s in scores))
         chk.count("duplicate_rows", min(c.get("dups", 0), 2))
@@ -685,7 +689,7 @@ def classify(chk, c, r, resp, ix, tally=True):
         return
     orig = {rid: s for rows in c["inputs"] for s, rid in rows}
     for s, rid, pay in r["rows"]:
-        if pay != f"r{rid}" or orig.get(rid) != s:
+        if pay != (None if c.get("nopay") else f"r{rid}") or orig.get(rid) != s:
             chk.spec_violation(f"row-modified:{entry}",
                                dict(info, clause=f"row id={rid} came out as score={s} payload={pay}"))
             return
